@@ -22,4 +22,5 @@ cd "$(dirname "$0")/../coq"
 ) 9>/verif/coq/.build.lock
 J=4
 [ $# -eq 0 ] && J=8
+[ "$*" = "-k" ] && J=8
 exec timeout "${COQ_BUILD_TIMEOUT:-1500}" make -j$J "$@"
